@@ -40,7 +40,7 @@ func unmarshal(data []byte, v interface{}, optFuncs ...DecodeOptionFunc) error {
 	}
 	ctx := decoder.TakeRuntimeContext()
 	ctx.Buf = src
-	ctx.Option.Flags = 0
+	*ctx.Option = decoder.Option{} // options of an earlier call must not leak into this one
 	for _, optFunc := range optFuncs {
 		optFunc(ctx.Option)
 	}
@@ -68,7 +68,7 @@ func unmarshalContext(ctx context.Context, data []byte, v interface{}, optFuncs 
 	}
 	rctx := decoder.TakeRuntimeContext()
 	rctx.Buf = src
-	rctx.Option.Flags = 0
+	*rctx.Option = decoder.Option{} // options of an earlier call must not leak into this one
 	rctx.Option.Flags |= decoder.ContextOption
 	rctx.Option.Context = ctx
 	for _, optFunc := range optFuncs {
@@ -96,7 +96,7 @@ func extractFromPath(path *Path, data []byte, optFuncs ...DecodeOptionFunc) ([][
 
 	ctx := decoder.TakeRuntimeContext()
 	ctx.Buf = src
-	ctx.Option.Flags = 0
+	*ctx.Option = decoder.Option{} // options of an earlier call must not leak into this one
 	ctx.Option.Flags |= decoder.PathOption
 	ctx.Option.Path = path.path
 	for _, optFunc := range optFuncs {
@@ -130,7 +130,7 @@ func unmarshalNoEscape(data []byte, v interface{}, optFuncs ...DecodeOptionFunc)
 
 	ctx := decoder.TakeRuntimeContext()
 	ctx.Buf = src
-	ctx.Option.Flags = 0
+	*ctx.Option = decoder.Option{} // options of an earlier call must not leak into this one
 	for _, optFunc := range optFuncs {
 		optFunc(ctx.Option)
 	}
